@@ -3,11 +3,13 @@
    (DESIGN.md section 5, C02).
 
    Anchors (line numbers of /repo/src/vivarium/framework/randomness, see tools/strip.py):
-     stream.py 111-123  _key            -> [seed_string] = "_".join([key, str(clock()), str(additional_key), str(seed)])
-     manager.py 41-43   setup           -> [manager_seed] = str(random_seed) + str(additional_seed)   (no separator)
+     stream.py 125-137  _key            -> [seed_string] = "_".join([key, str(clock()), str(additional_key), str(seed)])
+     manager.py 41-43   setup           -> [manager_seed] = str(random_seed) + str(additional_seed)   (no separator:
+                                           open finding F-O, see C02_seed_concat_alias_refuted and the guarded theorem)
      index_map.py 251-258 __getitem__   -> [lookup_label]  (`_map.loc[index]` with CRN, `index.values` without)
-     stream.py 182-183  raw_draws[draw_index]  -> [np_index]  (numpy indexing: negative indices wrap, else IndexError)
-     stream.py 152-185  get_draw        -> [get_draw]
+     stream.py 196-197  raw_draws[draw_index]  -> [np_index]  (numpy indexing: negative indices wrap, else IndexError)
+     stream.py 139-199  get_draw        -> [get_draw]  (166-167 empty index first; 172-173 fresh RandomState per call;
+                                           181-182 one block of len(index_map) draws; 184-191 positional opt-out)
      manager.py 122-138 _get_randomness_stream -> every stream of a manager shares ONE IndexMap, clock and seed
 
    Conventions (DESIGN.md section 4): labels and positions are Z; a draw is the NUMERATOR over 2^53 of the double
@@ -86,16 +88,16 @@ Section Draws.
 
   Definition draw1 (im : imap) (k : K) (l : label) : result Z := bind (pos im l) (fun p => Ok (block k p)).
 
-  (* get_draw, stream.py 152-185 *)
+  (* get_draw, stream.py 139-199 *)
   Definition get_draw (crn_init : bool) (im : imap) (k : K) (idx : list label) : result (list Z) :=
     match idx with
-    | [] => Ok []                                                         (* 152-153: before anything else *)
+    | [] => Ok []                                                         (* 166-167: before anything else *)
     | _ =>
       if crn_init
-      then (* 177: pd.Series(raw_draws[:len(index)], index=index); a block shorter than the index: ValueError *)
+      then (* 191: pd.Series(raw_draws[:len(index)], index=index); a block shorter than the index: ValueError *)
            if Z.of_nat (length idx) <=? size_of im then Ok (map (block k) (zseq 0 (length idx)))
            else Rejected EOther
-      else mapM (draw1 im k) idx                                          (* 182-183 *)
+      else mapM (draw1 im k) idx                                          (* 196-197 *)
     end.
 
   (* ---- histories: what a manager's randomness state is, and what calls do to it ----
@@ -176,8 +178,12 @@ Definition check_req (c : req_case) : bool :=
   let '(w, tbl, ops) := c in run_cops (tbl_block tbl) w ops.
 
 (* ------------------------------------------------------------------------------------------------------------
-   correspondence stream `unrel`: two requests for the same 200 simulants whose seed keys are equal (kind 0) or
-   differ in exactly one component (kind 1), together with the seed strings the implementation built
+   correspondence stream `unrel`: two requests for the same simulants, together with the seed strings the
+   implementation built.  kind 0: the four strings (decision point, str(clock), str(additional key), seed) are equal
+   -> identical draws.  kind 1: exactly one of the four strings differs -> different seed strings and at most 2
+   coinciding draws.  kind 2 (open finding F-O, modelled as the code is): the CONFIGURED (random_seed,
+   additional_seed) pairs differ but their concatenations are equal -> the manager hands out the same seed, the seed
+   strings are equal and so are all draws.
    ------------------------------------------------------------------------------------------------------------ *)
 Fixpoint count_eq (a b : list Z) : Z :=
   match a, b with
@@ -191,6 +197,7 @@ Definition differ_in_one (a b : seedkey) : bool :=
 
 (* (random_seed, additional_seed) as configured, and the seed the stream carries *)
 Definition seedcfg := (str * option str)%type.
+Definition seedcfg_eqb (a b : seedcfg) : bool := str_eqb (fst a) (fst b) && option_eqb str_eqb (snd a) (snd b).
 
 Definition unrel_case :=
   (Z * (seedkey * seedcfg * str * list Z) * (seedkey * seedcfg * str * list Z))%type.
@@ -201,8 +208,9 @@ Definition side_ok (s : seedkey * seedcfg * str * list Z) : bool :=
 
 Definition check_unrel (c : unrel_case) : bool :=
   let '(kind, s1, s2) := c in
-  let '(k1, _, o1, d1) := s1 in
-  let '(k2, _, o2, d2) := s2 in
+  let '(k1, c1, o1, d1) := s1 in
+  let '(k2, c2, o2, d2) := s2 in
   side_ok s1 && side_ok s2 && (Nat.eqb (length d1) (length d2)) &&
   if kind =? 0 then seedkey_eqb k1 k2 && zlist_eqb d1 d2
-  else differ_in_one k1 k2 && negb (str_eqb o1 o2) && (count_eq d1 d2 <=? 2).
+  else if kind =? 1 then differ_in_one k1 k2 && negb (str_eqb o1 o2) && (count_eq d1 d2 <=? 2)
+  else negb (seedcfg_eqb c1 c2) && seedkey_eqb k1 k2 && str_eqb o1 o2 && zlist_eqb d1 d2.
